@@ -1,1 +1,120 @@
-(* C20 property theorems (under construction) *)
+(* C20 — copying leaves process-global state untouched and is safe across threads.
+   Statements only.  Model: Conc/ModulesCopyableModel.v (the context manager
+   _modules_copyable of spec_classes/utils/mutation.py at source-line
+   granularity, as the code is AFTER the commit `fix: _modules_copyable
+   initialises its shared state once`; any number of threads; thread programs
+   are arbitrary nestings of copies, with leaves that copy modules, bodies
+   aborted by exceptions, handlers, and exceptions injected at the protocol's
+   own lines).  Meaning: Conc/ModulesCopyableSpec.v.
+
+   `reachable false safe_abort s0 s`: s is reached from s0 by some interleaving
+   of line steps of the fixed code, where an exception injected at a line of the
+   protocol itself is honoured at the lines where the protocol has not yet
+   written shared state (all of __new__ but its release line; the first two
+   lines of __enter__).  Exceptions in the BODY of a copy are unrestricted.
+   That an exception at one of the remaining protocol lines breaks the property
+   for this and for any other Python context manager is C20_protocol_line_abort_refuted.
+
+   PARTIAL with respect to CPython: pre-emption inside one source line, the
+   correctness of threading.Lock/RLock and the atomicity of single dict
+   operations under the GIL are assumed, not modelled. *)
+From Coq Require Import List ZArith Bool Arith.
+From SC Require Import Conc.ModulesCopyableModel Conc.ModulesCopyableSpec
+  Conc.ModulesCopyableInv Conc.ModulesCopyableProofs.
+Import ListNotations.
+Open Scope Z_scope.
+
+(* Whenever no thread is inside or entering/leaving a copy, the dispatch table
+   holds for ModuleType exactly what it held initially: a user's registration
+   is still there, the library's pass-through entry is gone.  Every number of
+   threads, every program (nesting depth, aborted bodies), every interleaving,
+   whether or not the singleton existed before. *)
+Theorem C20_quiescent_restored : forall user created0 progs s,
+  reachable false safe_abort (init_state user created0 progs) s ->
+  quiescent (statuses s) ->
+  tbl (sh s) = init_entry user.
+Proof. exact quiescent_restored. Qed.
+
+(* While some thread is inside a copy, an entry for ModuleType is present. *)
+Theorem C20_entry_while_inside : forall user created0 progs s,
+  reachable false safe_abort (init_state user created0 progs) s ->
+  some_inside (statuses s) ->
+  tbl (sh s) <> NoEntry.
+Proof. exact entry_while_inside. Qed.
+
+(* Hence no module copy made under the protection of the context manager ever
+   raises, in any thread, under any interleaving. *)
+Theorem C20_module_copies_succeed : forall user created0 progs s,
+  Forall (fun p => guarded_prog p = true) progs ->
+  reachable false safe_abort (init_state user created0 progs) s ->
+  Forall (fun th => t_fails th = 0%nat) (ths s).
+Proof. exact module_copies_succeed. Qed.
+
+(* The reference count is the number of copies in flight (over all threads). *)
+Theorem C20_refcount_counts_copies : forall user created0 progs s,
+  reachable false safe_abort (init_state user created0 progs) s ->
+  rc (sh s) = total (ths s) /\ 0 <= rc (sh s).
+Proof. exact refcount_counts_copies. Qed.
+
+(* As long as some thread has not finished, some thread can take a step: the
+   two locks never deadlock. *)
+Theorem C20_no_deadlock : forall user created0 progs s,
+  reachable false safe_abort (init_state user created0 progs) s ->
+  (exists t th, nth_error (ths s) t = Some th /\ ~ finished th) ->
+  exists t s' lb, step false safe_abort s t = Some (s', lb).
+Proof. exact no_deadlock. Qed.
+
+(* non-vacuity: two threads, first use of the singleton; thread 0 is inside a
+   nested copy (depth 2), thread 1 is in the middle of __enter__ *)
+Example C20_reachable_nontrivial :
+  let p := [Try [Nest None [Nest None [Yield; Use true]; Use true]]] in
+  let s := run_sched false safe_abort (init_state false false [p; p])
+             (repeat 0%nat 27 ++ repeat 1%nat 7) in
+  reachable false safe_abort (init_state false false [p; p]) s /\
+  statuses s = [Inside; Transit] /\ rc (sh s) = 3 /\ tbl (sh s) = Ours /\
+  Forall (fun q => guarded_prog q = true) [p; p].
+Proof.
+  split; [apply run_sched_reachable; constructor|].
+  vm_compute. repeat split; repeat constructor.
+Qed.
+
+(* The code as it was BEFORE the fix (__init__ re-run on every use): one
+   thread, one copy of a value that contains a nested copy (a list holding a
+   spec-class instance): the nested use resets counter and flag, both exits run,
+   nothing is in flight — and the pass-through entry is still in the table. *)
+Example C20_reinit_refuted :
+  let p := [Try [Nest None [Nest None [Use true]]]] in
+  exists s, reachable true no_abort (init_state false false [p]) s /\
+            quiescent (statuses s) /\ Forall finished (ths s) /\
+            tbl (sh s) = Ours /\ init_entry false = NoEntry.
+Proof.
+  exists (run_sched true no_abort (init_state false false [[Try [Nest None [Nest None [Use true]]]]])
+            (repeat 0%nat 60)).
+  split; [apply run_sched_reachable; constructor|].
+  vm_compute. repeat split; repeat constructor.
+Qed.
+
+(* Why injections at the remaining protocol lines are excluded: an exception
+   raised instead of the first line of __exit__ (id 17) means __exit__ does
+   nothing; the count stays 1 and the entry stays — in the fixed code, and in
+   any context manager written in Python. *)
+Example C20_protocol_line_abort_refuted :
+  let p := [Try [Nest (Some 17%nat) [Use true]]] in
+  exists s, reachable false any_abort (init_state false false [p]) s /\
+            quiescent (statuses s) /\ Forall finished (ths s) /\
+            tbl (sh s) = Ours /\ rc (sh s) = 1.
+Proof.
+  exists (run_sched false any_abort (init_state false false [[Try [Nest (Some 17%nat) [Use true]]]])
+            (repeat 0%nat 60)).
+  split; [apply run_sched_reachable; constructor|].
+  vm_compute. repeat split; repeat constructor.
+Qed.
+
+Print Assumptions C20_quiescent_restored.
+Print Assumptions C20_entry_while_inside.
+Print Assumptions C20_module_copies_succeed.
+Print Assumptions C20_refcount_counts_copies.
+Print Assumptions C20_no_deadlock.
+Print Assumptions C20_reachable_nontrivial.
+Print Assumptions C20_reinit_refuted.
+Print Assumptions C20_protocol_line_abort_refuted.
